@@ -128,7 +128,14 @@ func (w *World) coin(m M, amtKey, denomKey string) sdk.Coin {
 
 // BuildMsg turns one model-level message into the real message.
 func (w *World) BuildMsg(m M) (sdk.Msg, error) {
-	A := func(k string) string { return w.addrOrRaw(mStr(m, k)) }
+	// "enc": "upper" - every address of the message in the all-upper-case spelling bech32 also allows (same account)
+	A := func(k string) string {
+		a := w.addrOrRaw(mStr(m, k))
+		if mStr(m, "enc") == "upper" {
+			return strings.ToUpper(a)
+		}
+		return a
+	}
 	switch mStr(m, "t") {
 	case "Raise":
 		return &enttypes.MsgUndPurchaseOrder{Purchaser: A("pur"), Amount: w.coin(m, "amt", "denom")}, nil
